@@ -118,7 +118,7 @@ PROPS = {
     "C06": {
         "claim": "Theorems (any oracle, behaviour, state): reach_never_out_of_fuel / call_never_out_of_fuel (recursion depth bounded by the number of function vertices), no_elem_or_unknown_panic, malformed_options, counterexample_mutual_cycle_diverges (the unrepaired model diverges on the F3 input), generator_error_reported / generators_transparent / runGens_perm (converter generators: an error on any visited value aborts with an error for every iteration order; otherwise the graph is callGraph of the builder extended by the generated converters). No panic, crash or unbounded recursion on well-formed use. Decided on the model's explicit panic sites and fuel; real stack / reflect behaviour by crash-isolated exploration (worker restarted after a fatal stack overflow).",
         "note": "partial: only the modelled panic sites and the modelled recursion are covered by the model; the rest by exploration.",
-        "theorems": ["ArgMapper.C06.reach_never_out_of_fuel", "ArgMapper.C06.call_never_out_of_fuel", "ArgMapper.C06.counterexample_mutual_cycle_diverges", "ArgMapper.C06.no_elem_or_unknown_panic", "ArgMapper.C06.malformed_options", "ArgMapper.C06.generators_transparent", "ArgMapper.C06.no_generators", "ArgMapper.C06.generator_error_reported", "ArgMapper.C06.generated_sound_complete", "ArgMapper.C06.runGens_perm", "ArgMapper.C06.genVerts_kinds", "ArgMapper.C06.supplied_in_snapshot"],
+        "theorems": ["ArgMapper.C06.reach_never_out_of_fuel", "ArgMapper.C06.call_never_out_of_fuel", "ArgMapper.C06.counterexample_mutual_cycle_diverges", "ArgMapper.C06.no_elem_or_unknown_panic", "ArgMapper.C06.malformed_options", "ArgMapper.C06.ignored_options", "ArgMapper.C06.generators_transparent", "ArgMapper.C06.no_generators", "ArgMapper.C06.generator_error_reported", "ArgMapper.C06.generated_sound_complete", "ArgMapper.C06.runGens_perm", "ArgMapper.C06.genVerts_kinds", "ArgMapper.C06.supplied_in_snapshot"],
         "facts": {"r5SkipSame": "true", "r6NameTest": "true", "publishAfterUpdate": "true", "trackReaching": "true", "takeValuedNamed": "true", "memoCopy": "true"},
         "rule": "call: at least one function executed, or an unsatisfied error with a converter present; sig: positional signatures.",
         "runs": {"quick": [fam("call", 800, 0), fam("call", 300, 0, "malformed"), fam("call", 300, 0, "gens"), fam("sig", 600, 5), fam("hist", 400, 0), fam("redef", 300, 0), fam("conv", 300, 0)],
